@@ -476,11 +476,11 @@ Definition r_op_ir (o : op_ir) : toks * toks :=
       let bt := core_path ["core"; "ops"; binop_to_str op] in
       let func := binop_func op in
       let tthis := r_ty this in let trhs := r_ty rhs in
-      (q "# [ automatically_derived ] impl" ++ r_impl_g g ++ bt ++ [TP "<"] ++ with_ref ir trhs ++ [TP ">"] ++
-       [TI "for"] ++ with_ref il tthis ++ r_where_g g,
+      (q "# [ automatically_derived ] impl" ++ r_impl_g g ++ bt ++ [TP "<"] ++ with_ref_ty ir rhs ++ [TP ">"] ++
+       [TI "for"] ++ with_ref_ty il this ++ r_where_g g,
        q "type Output =" ++ r_ty output ++ q "; fn" ++ [TI func] ++
-       tparen (q "self , __rhs :" ++ with_ref ir trhs) ++ q "-> Self :: Output" ++
-       tbrace (ufcs (with_ref cl tthis) (bt ++ [TP "<"] ++ with_ref cr trhs ++ [TP ">"]) func
+       tparen (q "self , __rhs :" ++ with_ref_ty ir rhs) ++ q "-> Self :: Output" ++
+       tbrace (ufcs (with_ref_ty cl this) (bt ++ [TP "<"] ++ with_ref_ty cr rhs ++ [TP ">"]) func
                     [change_owned [TI "self"] tthis il cl; change_owned [TI "__rhs"] trhs ir cr]))
   | OpAssignFromBin g op this rhs cl =>
       let bt := core_path ["core"; "ops"; binop_to_str op] in
@@ -490,7 +490,7 @@ Definition r_op_ir (o : op_ir) : toks * toks :=
        [TI "for"] ++ tthis ++ r_where_g g,
        [TI "fn"; TI (binop_func op +++ "_assign")] ++ tparen (q "& mut self , __rhs :" ++ trhs) ++
        tbrace (q "* self =" ++
-               ufcs (with_ref cl tthis) (bt ++ [TP "<"] ++ trhs ++ [TP ">"]) (binop_func op)
+               ufcs (with_ref_ty cl this) (bt ++ [TP "<"] ++ trhs ++ [TP ">"]) (binop_func op)
                     [change_owned [TI "self"] tthis true cl; [TI "__rhs"]]))
   | OpBinFromAssign g op this rhs =>
       let bt := core_path ["core"; "ops"; binop_to_str op] in
